@@ -777,14 +777,24 @@ def scripted_cases(rng, K, add, thorough):
         for v in ("s.factor.ip", "s.iffactorprime.ip", "s.primefactor.ip"):
             emit(v, n, 0, ["composite", "composite", "prime"], f, base=rng.range(0, 20))
         emit("s.pollard.ip", n, 9, ["prime"], f, base=rng.range(0, 20))
+    # Lenstra called directly: its front end (n < 3, prime n, multiples of 2 and 3) before any curve is used
+    for n in (1, 2, 3, 4, 6, 9, 15, 21, 27, 33, 3 * 10007, 2 * 10007, 6 * 10007, 9 * 101, 101, 10007):
+        f = {}
+        m = n
+        for q in SMALLP + [10007]:
+            while m % q == 0:
+                f[q] = f.get(q, 0) + 1; m //= q
+        add("lenstra", [n], "factor1", f, "Lenstra front end")
     emit("s.lenstra.ip", 10403, 0, [], {101: 1, 103: 1})
+    emit("s.lenstra.ip", 6 * 10007, 0, [], {2: 1, 3: 1, 10007: 1})
+    emit("s.lenstra.ip", 9 * 101, 0, [], {3: 2, 101: 1})
     emit("s.lenstra.ip", 10007, 0, [], {10007: 1})
     emit("s.lenstra.ip", 4 * 10007, 0, [], {2: 2, 10007: 1})
     # Miller with a chosen witness: 0, 1, n-1, small and random witnesses for primes; strong liars and witnesses for composites
     for n in [5, 7, 11, 13, 17, 97, 257, 65537, 1009, 2147483647, 18446744073709551557] + [rand_prime(rng, rng.range(5, 90)) for _ in range(6)]:
         for a in [0, 1, n - 1, 2, 3, n // 2, rng.range(2, n - 2), n, 2 * n + 3]:
             add("s.miller", [n, 0, a, 2, 3], "smiller", {n: 1}, "witness 0" if a % n == 0 else "prime n")
-    for n, a in ((2047, 2), (2047, 3), (9, 8), (9, 2), (15, 4), (15, 14), (561, 50), (561, 2), (1373653, 2), (1373653, 3), (1373653, 5), (25, 7), (91, 10), (4, 3), (1, 0), (0, 0), (2, 1), (3, 2), (-7, 3)):
+    for n, a in ((2047, 2), (2047, 3), (9, 8), (9, 2), (15, 4), (15, 14), (561, 50), (561, 2), (1373653, 2), (1373653, 3), (1373653, 5), (25, 7), (91, 10), (4, 3), (4, 2), (4, 1), (1, 0), (0, 0), (2, 1), (3, 2), (-7, 3)):
         add("s.miller", [n, 0, a, 2, 3], "smiller", None, "composite / edge n")
 
 
@@ -1098,6 +1108,8 @@ def model_line(c, out):
         if v in ("s.primefactor.ip", "s.lenstra.ip"):
             return None                                                              # specification only
         return "%s %s" % (v, " ".join(str(x) for x in a))
+    if v == "erat":
+        return "erat %d" % a[0] if (a[0] < (1 << 16) or a[0] % 7 == 3) else None      # the model sieve needs ~0.5 s near 2^20: a sample of the large ones
     if v == "ipp.alias":
         return "ipp.alias %d" % a[0]
     if v == "divisors.lf.alias":
@@ -1391,6 +1403,11 @@ def spec_check(chk, c, out, K, sv):
         base = v.split(".")[0]
         if base == "lenstra":        # a probabilistic fallback that may report failure: only "what it returns divides n" is required
             chk.cov["lenstra_nontrivial"] = chk.cov.get("lenstra_nontrivial", 0) + (1 if 1 < g < n else 0)
+            if c["klass"] in ("Lenstra front end", "in place") and n >= 1:
+                if (n < 3 or is_prime(n)) and g != n:
+                    return fail(c["klass"], n, "Lenstra of n < 3 / of a prime is n itself")
+                if composite and (n % 2 == 0 or n % 3 == 0) and not (1 < g < n and is_prime(g)):
+                    return fail(c["klass"], "2 or 3", "a multiple of 2 or 3 is split before any curve is tried")
             return False
         if composite and not loops and not (1 < g < n):
             return fail(c["klass"], "1 < g < n", "trivial factor for a composite n")
@@ -1619,7 +1636,7 @@ def main(tier, replay=None):
             mlines.append(ml); midx.append(i)
     mout = {}
     if drv:
-        rc, mo, merr = run_parallel(drv, mlines, min(8, vf.NCPU), timeout=1500)
+        rc, mo, merr = run_parallel(drv, mlines, min(12, vf.NCPU), timeout=1500)
         if rc != 0 or len(mo) != len(mlines):
             chk.broke("model driver failed (rc=%s, %d/%d lines)" % (rc, len(mo), len(mlines)), merr)
         else:
@@ -1682,7 +1699,8 @@ def main(tier, replay=None):
     chk.cov["calls_that_did_not_return"] = hangs
     if K:
         chk.cov["source_constants"] = {k: K[k] for k in ("DISPATCH1", "DISPATCH2", "PREV_LOW", "PREVIN_LOW", "PPREV_LOW", "ISPRIME_HAS_GUARD", "ISPRIME_GUARD",
-                                                      "IPP_NEG_GUARD", "IPP_RECURSE", "IPP_ZERO_RET", "PRIMEFACTOR_GUARD", "SET1_ABS", "PRIMES16_SIZE")}
+                                                      "IPP_NEG_GUARD", "IPP_RECURSE", "IPP_ZERO_RET", "PRIMEFACTOR_GUARD", "SET1_ABS", "PRIMES16_SIZE",
+                                                      "POLLARD_CST", "FACTOR_INPLACE_GUARD", "POLLARD_INPLACE_GUARD", "LENSTRA_INPLACE_GUARD", "MILLER_NONZERO")}
         chk.cov["table_sizes"] = {"IP": len(K["IP"]), "IP2": len(K["IP2"]), "PRIMES16": len(K["PRIMES16"])}
     return chk.finish()
 
